@@ -110,8 +110,11 @@ static int line_to_instr(struct instr *instr_data, char *filtered_asm_str) {
   // call has no short form: never advance to a rel8 row
   if (instr_data->imm && TYPE(instr_data->key, CONTROL_FLOW) &&
       !NAME(instr_data->key, call)) {
-    if (IN_RANGE(instr_data->cons, NEG80_32BIT, MAX_UNSIGNED_32BIT) ||
-        (instr_data->cons <= MAX_SIGNED_8BIT && !instr_data->keyword.is_long))
+    // (a displacement written as a 32-bit two's complement number, 0xffffff80
+    // .. 0xffffffff, fits rel8 as well; `long` asks for rel32 in either case)
+    if ((IN_RANGE(instr_data->cons, NEG80_32BIT, MAX_UNSIGNED_32BIT) ||
+         instr_data->cons <= MAX_SIGNED_8BIT) &&
+        !instr_data->keyword.is_long)
       instr_data->keyword.is_short = true;
     else if (instr_data->cons > MAX_SIGNED_8BIT &&
              instr_data->keyword.is_short) {
